@@ -112,8 +112,10 @@ where OC: Cache<pdf::error::Result<AnySync, Arc<PdfError>>>, SC: Cache<pdf::erro
     for id in 0..size {
         out.push(canon_res(r.resolve(PlainRef { id, gen: 0 }), &r));
     }
-    let mut t2 = tr.clone();
-    t2.remove("Size");
+    let mut t2 = Dictionary::new();
+    for k in ["Root", "Info", "ID", "Prev"] {
+        if let Some(v) = tr.get(k) { t2.insert(k, v.clone()); }
+    }
     out.push(canon(&Primitive::Dictionary(t2), &r));
 }
 
